@@ -105,18 +105,18 @@ Proof.
   eapply same_ids_upd; eauto.
 Qed.
 
-Lemma slash_obj_same : forall h snap x st, same_ids (l_recs st) (l_recs (slash_obj h snap st x)).
+Lemma slash_obj_same : forall k h snap x st, same_ids (l_recs st) (l_recs (slash_obj k h snap st x)).
 Proof.
-  intros h snap x. unfold slash_obj. induction snap as [|r t IH]; intros st; cbn [fold_left].
+  intros k h snap x. unfold slash_obj. induction snap as [|r t IH]; intros st; cbn [fold_left].
   - apply same_ids_refl.
-  - destruct (must_sign r x).
+  - destruct (must_sign k r x).
     + eapply same_ids_trans; [apply slash_one_same | apply IH].
     + apply IH.
 Qed.
 
-Lemma slash_objs_same : forall h snap l st, same_ids (l_recs st) (l_recs (fold_left (slash_obj h snap) l st)).
+Lemma slash_objs_same : forall k h snap l st, same_ids (l_recs st) (l_recs (fold_left (slash_obj k h snap) l st)).
 Proof.
-  intros h snap l. induction l as [|x t IH]; intros st; cbn [fold_left].
+  intros k h snap l. induction l as [|x t IH]; intros st; cbn [fold_left].
   - apply same_ids_refl.
   - eapply same_ids_trans; [apply slash_obj_same | apply IH].
 Qed.
@@ -317,20 +317,49 @@ Proof.
   unfold idx_inv, set_objs in *; proj. exact I.
 Qed.
 
-Lemma slash_two_same : forall h snap l1 l2 f lsh b,
-  same_ids f (l_recs (fold_left (slash_obj h snap) l2 (fold_left (slash_obj h snap) l1 (mkL f lsh b)))).
+Lemma slash_three_same : forall h snap l1 l2 l3 f lsh b,
+  same_ids f (l_recs (fold_left (slash_obj KCall h snap) l3 (fold_left (slash_obj KBatch h snap) l2
+                        (fold_left (slash_obj KSet h snap) l1 (mkL f lsh b))))).
 Proof.
-  intros. eapply same_ids_trans; [exact (slash_objs_same h snap l1 (mkL f lsh b)) | apply slash_objs_same].
+  intros. eapply same_ids_trans; [exact (slash_objs_same KSet h snap l1 (mkL f lsh b))|].
+  eapply same_ids_trans; apply slash_objs_same.
+Qed.
+
+Lemma recs_refresh_if : forall (b : bool) s, recs (if b then refresh_power s else s) = recs s.
+Proof. intros. destruct b; reflexivity. Qed.
+
+Lemma slashing_recs : forall s s2, slashing s = Some s2 ->
+  same_ids (recs s) (recs s2) /\ by_bridger s2 = by_bridger s /\ by_ext s2 = by_ext s.
+Proof.
+  intros s s2 H. unfold slashing in H.
+  match type of H with (if ?c then _ else _) = _ => destruct c; [discriminate|] end.
+  inversion H; subst; clear H.
+  match goal with |- context[if ?c then refresh_power ?x else ?x] => destruct c end;
+    unfold_power; (split; [| split; reflexivity]); apply slash_three_same.
+Qed.
+
+Lemma create_set_recs : forall s pd,
+  recs (create_set s pd) = recs s /\ by_bridger (create_set s pd) = by_bridger s /\
+  by_ext (create_set s pd) = by_ext s.
+Proof.
+  intros. unfold create_set.
+  match goal with |- context[if ?c then _ else _] => destruct c end; unfold_power; auto.
+Qed.
+
+Lemma end_block_inv : forall s t1 t2 pd s', end_block s t1 t2 pd = Ok s' ->
+  exists s2, slashing (staking_end s t1) = Some s2 /\ s' = next_block (create_set s2 pd) t2.
+Proof.
+  intros s t1 t2 pd s' H. unfold end_block in H.
+  destruct (slashing (staking_end s t1)) as [s2|]; [|discriminate]. inversion H; subst. eauto.
 Qed.
 
 Lemma end_block_recs : forall s t1 t2 pd s', end_block s t1 t2 pd = Ok s' ->
   same_ids (recs s) (recs s') /\ by_bridger s' = by_bridger s /\ by_ext s' = by_ext s.
 Proof.
-  intros s t1 t2 pd s' H. unfold end_block in H.
-  match type of H with (if ?c then _ else _) = _ => destruct c; [discriminate|] end.
-  inversion H; subst; clear H.
-  repeat match goal with |- context[if ?c then _ else _] => destruct c end;
-    unfold_power; (split; [| split; reflexivity]); apply slash_two_same.
+  intros s t1 t2 pd s' H. apply end_block_inv in H. destruct H as (s2 & H2 & ->).
+  apply slashing_recs in H2. destruct H2 as (A & B & C).
+  destruct (create_set_recs s2 pd) as (D & E & F).
+  unfold next_block; proj. rewrite D, E, F. auto.
 Qed.
 
 Lemma end_block_idx : forall s t1 t2 pd s', idx_inv s -> end_block s t1 t2 pd = Ok s' -> idx_inv s'.
@@ -354,6 +383,7 @@ Proof.
   - unfold add_batch in H. guards H. inversion H; subst. exact I.
   - unfold del_batch in H. inversion H; subst. exact I.
   - unfold add_call in H. inversion H; subst. exact I.
+  - unfold del_call in H. inversion H; subst. exact I.
   - unfold fund in H. inversion H; subst. exact I.
   - eapply end_block_idx; eauto.
 Qed.
